@@ -131,4 +131,7 @@ contract("monkeytype.tracing:trace_calls", props=["C03", "C06"], theories=TH, pu
          ensures={"post:restore": "profiler() is old(profiler())",
                   "post:flush-once": "effects() is append(L_ghost_body_effects, tup('flush', logger))"},
          ensures_exc={"exc:restore": "profiler() is old(profiler())",
-                      "exc:flush-once": "effects() is append(L_ghost_body_effects, tup('flush', logger))"})
+                      "exc:flush-once": "effects() is append(L_ghost_body_effects, tup('flush', logger))"},
+         # carve-out (known finding C03-flush-raises): an exception raised by logger.flush() itself propagates out of the
+         # with-block (the profiler has been restored and flush was called once); no other exception can originate here
+         raises={"Exception": None})
